@@ -36,6 +36,7 @@ def run(ctx, variants=(("verif", "c04"), ("verif,unsafe", "c04u"))):
         broken.append({"kind": "obligation", "name": "oracle_c04 could not be built", "detail": olog[-1500:]})
     if ctx.tier != "thorough":
         variants = variants[:2]
+    lying_all = set()
     for n, (tags, name) in enumerate(variants):
         if orc is None:
             break
@@ -79,11 +80,39 @@ def run(ctx, variants=(("verif", "c04"), ("verif,unsafe", "c04u"))):
             b0 = codec.v1_to_v0(raw, fields)
             if b0:
                 v0.append([f[0], f[1], b0.hex()])
-        expand(v0)
+        parsed0 = expand(v0)
+        # (a') announced sizes consistent with each other but the STREAM ends early: every frame cut at every offset
+        #      (the decoder must report an error - never a message, a panic or a hang - wherever the bytes stop,
+        #      inside record sets included)
+        ncut = 0
+        for f, raw, fields in parsed + parsed0:
+            hexs = f[2]
+            step = 1 if (ctx.tier == "thorough" or len(raw) <= 400 or any(x["crc"] for x in fields)) else 3
+            for k in range(0, len(raw), step):
+                cases.append("%s %s %s" % (f[0], f[1], hexs[:2 * k] or "-"))
+                ncut += 1
+        ctx.coverage["truncated_stream_cases"] = ctx.coverage.get("truncated_stream_cases", 0) + ncut
         if nofields:
             broken.append({"kind": "obligation", "name": "lens: %d well-formed frames could not be walked" % nofields, "detail": ""})
         ctx.coverage["length_fields_mutated"] = ctx.coverage.get("length_fields_mutated", 0) + nfields
         ctx.coverage["v0_message_set_frames"] = len(v0)
+        # (a'') the un-framed SASL token exchange on the Transport path (handshake v0): its only length field
+        for h in ["0000000401020304", "00000000", "ffffffff", "80000000", "7fffffff0102", "fffffffe", "0000000501020304", "000000", "7ffffff0", "00010000" + "00" * 16]:
+            cases.append("sasl 0 %s" % h)
+        # (a3) TWO lying fields: a frame-size prefix of 2^31-1 AND a count that is huge yet below it.  The bound check
+        #      compares with the ANNOUNCED remaining bytes, so the allocation is proportional to what the frame claims,
+        #      not to what was received (finding C20-D30; see docs/notes/C20.md)
+        lying = []
+        for f, raw, fields in parsed:
+            cnt = [x for x in fields if x["kind"] == "i32" and x["off"] >= 8 and not x["crc"] and len(x["encl"]) == 1]
+            if f[0] == "61" and cnt:                     # metadata responses: brokers []struct (48-byte elements)
+                b = bytearray(raw)
+                b[0:4] = bytes.fromhex("7fffffff")
+                o = cnt[0]["off"]
+                b[o:o + 4] = bytes.fromhex("08000000")
+                lying.append("%s %s %s" % (f[0], f[1], bytes(b[:o + 4]).hex()))
+        cases += lying[:2]
+        lying_all |= set(c.split(" ")[2] for c in lying[:2])
         # (b) extra: blind overwrites at random offsets
         gen, rc, err = ctx.run_driver(drv, ["-malgen"])
         if rc != 0:
@@ -103,9 +132,10 @@ def run(ctx, variants=(("verif", "c04"), ("verif,unsafe", "c04u"))):
         if len(got) != len(cases) and "stopping after" not in err:
             broken.append({"kind": "obligation", "name": "driver c04 -mal (%s): %d outcomes for %d cases" % (tags, len(got), len(cases)), "detail": err[-800:]})
         dis += ctx.correspond(got, orc, "ReadResponse on mutated frames (%s) <-> Model/Codec.lean readResponse" % tags)
-        if any(d.get("kind") == "disagreement" and not d["holds_on_impl"] for d in dis):
+        if any(d.get("kind") == "disagreement" and not d["holds_on_impl"] and d["op"].split(" ")[-1] not in lying_all for d in dis):
             break                       # failing inputs found: no need to spend the budget on the other build variant
-    ctx.coverage["rule"] = ("DETERMINISTIC: every response type x version (Fetch: one frame per message-set format magic 0/1/2 with 3 records, keys, a header): "
+    ctx.coverage["rule"] = ("TRUNCATED STREAM: every well-formed response frame (Fetch with magic 0/1/2 record sets included) cut at every offset with "
+                            "all announced sizes left consistent - outcome must be an error. DETERMINISTIC: every response type x version (Fetch: one frame per message-set format magic 0/1/2 with 3 records, keys, a header): "
                             "EVERY length/count field (frame size, string/bytes/array prefixes fixed and compact, tag-buffer counts, record-set size, message size, "
                             "batchLength, numRecords, v0/v1 key/value lengths, v2 record/key/value/header varints; positions computed from the schema by the oracle) x "
                             "{-1,-2,min,max,0,orig+-1,rest,rest+1,255,2^16,2^24} resp. varints {0,1,2,orig+-1,rest+1,rest+2,2^31,2^32,2^62,2^63,2^64-1,-2^63,over-long}, "
@@ -122,6 +152,8 @@ def run(ctx, variants=(("verif", "c04"), ("verif,unsafe", "c04u"))):
         op = d["op"]
         p = op.split(" ")
         sig = "mal %s %s => %s" % (p[1], p[2], d["impl"])
+        if len(p) > 3 and p[3] in lying_all:
+            sig = "lying-size-and-count " + sig + " " + p[3]
         recorded += ctx.violation({"kind": "input", "input": op, "actual": d["impl"], "expected_model": d["model"],
                                    "monitor": "outcome must be a decoded message or an error (never panic / out of memory / hang)",
                                    "correspondence": d["correspondence"]}, True, signature=sig)
